@@ -55,6 +55,11 @@ import (
 //	                 the sink; the requirement is withdrawn again afterwards. The harness
 //	                 verifies the failed persist and the retained WAL. When the store takes a
 //	                 full snapshot here (or none) there is nothing to fail: F is then S.
+//	G  snapshot whose Persist succeeds but which is NOT installed: the full-needed
+//	                 requirement is raised after the sink accepted the incremental header (at
+//	                 the moment Persist reports success) and the sink refuses when raft closes
+//	                 it; the requirement is withdrawn afterwards. Verified: newest snapshot
+//	                 index unchanged, staged WAL retained. (See c04SnapshotNotInstalled.)
 //	L  load          Store.Load of a SQLite file (goes through the raft log)
 //	B  boot          Store.ReadFrom of a SQLite file (bypasses the log, snapshots itself)
 //	R  reap          Store.Reap()
@@ -86,7 +91,8 @@ import (
 // FULL_NEEDED; whether the live WAL holds data; whether the database file looks modified
 // to the store and whether the store remembers a modification time at all (memory only,
 // lost by a restart); whether a configuration entry is ahead of the FSM; the number of
-// servers; whether the clean-snapshot marker exists; the number of command entries in the
+// servers; whether the clean-snapshot marker is absent, vouches for the database file as it is (the
+// start-up fast path) or is stale; the number of command entries in the
 // log after the newest snapshot; the digest of the live database; the digest of the
 // database the newest snapshot must restore to; which load file and which row of p the
 // next load/boot and small write will use. Two histories with equal keys have the same
@@ -98,10 +104,10 @@ import (
 // folds the newest full snapshot and everything after it into one: their combined content
 // is the digest of the newest snapshot.)
 
-const c04Alphabet = "wWSKFLBRX"
+const c04Alphabet = "wWSKFGLBRX"
 
 var c04OpName = map[byte]string{'w': "write", 'W': "big-write", 'S': "snapshot", 'K': "snapshot-persist-skipped",
-	'F': "snapshot-persist-fails", 'L': "load", 'B': "boot", 'R': "reap", 'X': "restart"}
+	'F': "snapshot-persist-fails", 'G': "snapshot-persisted-not-installed", 'L': "load", 'B': "boot", 'R': "reap", 'X': "restart"}
 
 const (
 	c04BigRows  = 30
@@ -388,13 +394,15 @@ type c04Exec struct {
 	s     *Store
 	files [2]c04File
 
-	model     c04Model
-	nSmall    int
-	nFileOps  int
-	nJoins    int
-	snapIdx   uint64  // index of the newest snapshot when last looked at
-	snapModel c04Dump // what the newest snapshot must restore to
-	haveSnap  bool
+	model  c04Model
+	nSmall int
+	// uninstalled: a snapshot was persisted but refused at install since the last good one
+	uninstalled bool
+	nFileOps    int
+	nJoins      int
+	snapIdx     uint64  // index of the newest snapshot when last looked at
+	snapModel   c04Dump // what the newest snapshot must restore to
+	haveSnap    bool
 	// stale maps the base name of a WAL file that was sitting in the staging directory
 	// when a full snapshot was installed (it predates that snapshot and must never be
 	// applied on top of it) to the reason the full snapshot was taken.
@@ -460,7 +468,9 @@ func c04Must(hist, what string, err error) {
 
 func c04NewStore(dir string) *Store {
 	cfg := NewDBConfig()
-	s := New(&Config{DBConf: cfg, Dir: dir, ID: "c04", Logger: log.New(c04FatalOnly{}, "[store] ", log.LstdFlags)}, mustMockLayer("localhost:0"))
+	lw := &c04LogWriter{}
+	s := New(&Config{DBConf: cfg, Dir: dir, ID: "c04", Logger: log.New(lw, "[store] ", log.LstdFlags)}, mustMockLayer("localhost:0"))
+	c04LogWriters.Store(s, lw)
 	s.NoSnapshotOnClose = true
 	s.SnapshotReapThreshold = 1 << 20 // no background reaping: reap is an explicit operation
 	s.RaftLogLevel = "ERROR"
@@ -572,6 +582,12 @@ func (c *c04Exec) step(i int, op byte) {
 		c.obs = append(c.obs, "K="+cls)
 	case 'F':
 		c.obs = append(c.obs, "F="+c04SnapshotPersistFails(c.hist, s, c.snapErrClass))
+	case 'G':
+		out := c04SnapshotNotInstalled(c.hist, s, c.snapErrClass)
+		if out == "persisted-not-installed" {
+			c.uninstalled = true
+		}
+		c.obs = append(c.obs, "G="+out)
 	case 'L':
 		f := c.files[c.nFileOps%2]
 		c.nFileOps++
@@ -628,6 +644,76 @@ func (b *c04PersistBreaker) Checkpoint(w io.Writer, timeout time.Duration) (*sql
 		}
 	}
 	return meta, n, err
+}
+
+// c04LogWriter is the output of a harness store's own logger: chatter is dropped, lines
+// announcing a process exit are kept, and a hook may watch the lines (operation G).
+type c04LogWriter struct {
+	hook atomic.Pointer[func(line []byte)]
+}
+
+func (w *c04LogWriter) Write(p []byte) (int, error) {
+	if h := w.hook.Load(); h != nil {
+		(*h)(p)
+	}
+	return c04FatalOnly{}.Write(p)
+}
+
+var c04LogWriters sync.Map // *Store -> *c04LogWriter
+
+// c04SnapshotNotInstalled is operation G: a snapshot whose Persist SUCCEEDS but which is
+// not installed in the snapshot store: the sink refuses it when raft closes it. The
+// full-needed requirement is raised after the sink accepted the incremental header and
+// before raft closes the sink - at the moment FSMSnapshot.Persist reports its success to the
+// store's logger (the only harness-reachable point between the two; incremental snapshots
+// are logged at level INFO, which is switched on for this one snapshot). Since fix 0c97859
+// the sink re-checks the requirement in Close and refuses. Afterwards the requirement is
+// withdrawn, so what remains is: Persist returned nil, raft's sink.Close failed, Release
+// ran with (invoked, succeeded). Verified: the snapshot store's newest index is unchanged
+// and the staged WAL is still there.
+func c04SnapshotNotInstalled(hist string, s *Store, classify func(error) string) string {
+	v, ok := c04LogWriters.Load(s)
+	if !ok {
+		panic("c04 harness: store has no hookable logger")
+	}
+	lw := v.(*c04LogWriter)
+	staged := func() int {
+		fs, _ := filepath.Glob(filepath.Join(s.walStagingDir, "*.wal"))
+		return len(fs)
+	}
+	newest := func() uint64 {
+		li, _, err := snapshot.LatestIndexTerm(s.snapshotDir)
+		if err != nil {
+			return 0
+		}
+		return li
+	}
+	before, prevIdx := staged(), newest()
+	var fired atomic.Bool
+	hook := func(line []byte) {
+		if bytes.Contains(line, []byte("persisted incremental snapshot")) && fired.CompareAndSwap(false, true) {
+			if err := s.snapshotStore.SetDueNext(snapshot.Full); err != nil {
+				panic(fmt.Sprintf("c04 harness: cannot raise full-needed: %v", err))
+			}
+		}
+	}
+	oldLevel := s.RaftLogLevel
+	s.RaftLogLevel = "INFO"
+	lw.hook.Store(&hook)
+	err := s.Snapshot(0)
+	lw.hook.Store(nil)
+	s.RaftLogLevel = oldLevel
+	cls := classify(err)
+	if !fired.Load() {
+		// no incremental snapshot got as far as a successful Persist (a full snapshot was due,
+		// nothing to snapshot, persist skipped): G is an ordinary snapshot attempt
+		return cls + "(no-incremental-persist)"
+	}
+	c04Must(hist, "withdraw full-needed", s.snapshotStore.SetDueNext(snapshot.Incremental))
+	if err == nil || !strings.Contains(err.Error(), "failed to close snapshot") || newest() != prevIdx || staged() != before+1 {
+		panic(fmt.Sprintf("c04 harness: history %q: the snapshot was meant to be persisted but refused at Close; it returned %v, the newest snapshot index went from %d to %d and the staging directory from %d to %d WAL files", hist, err, prevIdx, newest(), before, staged()))
+	}
+	return "persisted-not-installed"
 }
 
 // c04SnapshotPersistFails is operation F: a snapshot whose Persist fails before the staged
@@ -740,6 +826,7 @@ func (c *c04Exec) afterOp(i int, op byte, stagedBefore []string) {
 	} else if !c.haveSnap || metas[0].Index != c.snapIdx {
 		// a new snapshot: it was taken by this operation, of the state the model has now
 		c.haveSnap, c.snapIdx, c.snapModel = true, metas[0].Index, md
+		c.uninstalled = false
 		if c04Exists(filepath.Join(c.s.snapshotDir, metas[0].ID, "data.db")) {
 			// a full snapshot: whatever was staged before it was taken predates it
 			for _, w := range stagedBefore {
@@ -783,6 +870,9 @@ func (c *c04Exec) mechanism() string {
 		if why, ok := c.stale[filepath.Base(w)]; ok {
 			return "stale-staged-wal-after-" + why + "-still-staged"
 		}
+	}
+	if c.uninstalled {
+		return "after-persisted-but-not-installed-snapshot"
 	}
 	// otherwise: the shape of the chain the newest snapshot resolves to
 	_, newer := set.PartitionAtFull()
@@ -869,7 +959,20 @@ func (c *c04Exec) key() string {
 	}
 	parts = append(parts, fmt.Sprintf("cfgahead=%t", cfgIdx > s.fsmIdx.Load()))
 	parts = append(parts, fmt.Sprintf("servers=%d", len(cf.Configuration().Servers)))
-	parts = append(parts, fmt.Sprintf("clean=%t", c04Exists(s.cleanSnapshotPath)))
+	// the clean-snapshot marker as start-up will judge it: absent, or vouching / not
+	// vouching for the database file as it is now (modification time and size)
+	clean := "absent"
+	if c04Exists(s.cleanSnapshotPath) {
+		clean = "unreadable"
+		fp := &FileFingerprint{}
+		if err := fp.ReadFromFile(s.cleanSnapshotPath); err == nil {
+			clean = "stale"
+			if st, err := os.Stat(s.dbPath); err == nil && st.ModTime().Equal(fp.ModTime) && st.Size() == fp.Size {
+				clean = "matches-file"
+			}
+		}
+	}
+	parts = append(parts, "clean="+clean)
 	// command entries after the newest snapshot
 	ncmd := 0
 	from := c.snapIdx + 1
@@ -1059,10 +1162,17 @@ var c04Directed = func() []string {
 		"SLKwS",    // ... and after a full snapshot attempt whose persist was skipped
 		"SLFwS",    // ... or failed
 		"SwSLFwSwS",
+		// a snapshot that was persisted but not installed, then a restart (normal start-up
+		// path) before / after the next good snapshot
+		"SwGX",
+		"SWGXwSX",
+		"SwwGwXwSX",
+		"SwGwSXwS",
+		"SWGGXS",
 	}
 	// a WAL retained in the staging directory (persist skipped / failed), then everything
 	// that may happen before the next successful snapshot, then what follows it
-	for _, retain := range []string{"K", "F"} {
+	for _, retain := range []string{"K", "F", "G"} {
 		for _, mid := range []string{"", "w", "LS", "B", "X", "R"} {
 			for _, tail := range []string{"RX", "wS"} {
 				hs = append(hs, "Sw"+retain+mid+"wS"+tail)
@@ -1132,7 +1242,7 @@ func TestVerif_C04(t *testing.T) {
 	}
 	ran := map[string]bool{}
 	nres := 0
-	nFFailed, nKSkipped := 0, 0
+	nFFailed, nKSkipped, nGRefused := 0, 0, 0
 	record := func(res *c04Result) {
 		ran[res.hist] = true
 		r.Eval(1)
@@ -1140,6 +1250,7 @@ func TestVerif_C04(t *testing.T) {
 		r.Distinct(res.key + " || " + res.obs)
 		nFFailed += strings.Count(res.obs, "F=persist-failed")
 		nKSkipped += strings.Count(res.obs, "K=persist-skipped")
+		nGRefused += strings.Count(res.obs, "G=persisted-not-installed")
 		c04DumpKey(res)
 		r.SampleEvery(nres, map[string]any{"history": res.hist, "outcomes": res.obs, "state_key": res.key, "violations": len(res.violations)})
 		nres++
@@ -1219,9 +1330,10 @@ func TestVerif_C04(t *testing.T) {
 	r.Note("directed: %d further prefixes run", ndir)
 	r.Set("persists_failed_by_F", nFFailed)
 	r.Set("persists_skipped_by_K", nKSkipped)
-	if nFFailed == 0 || nKSkipped == 0 {
-		r.Cap("the fault operations did not take effect: F failed %d persists, K had %d persists skipped", nFFailed, nKSkipped)
-		t.Fatalf("c04 harness: the fault operations did not take effect: F failed %d persists, K had %d persists skipped", nFFailed, nKSkipped)
+	r.Set("installs_refused_by_G", nGRefused)
+	if nFFailed == 0 || nKSkipped == 0 || nGRefused == 0 {
+		r.Cap("the fault operations did not take effect: F failed %d persists, K had %d persists skipped, G had %d installs refused", nFFailed, nKSkipped, nGRefused)
+		t.Fatalf("c04 harness: the fault operations did not take effect: F failed %d persists, K had %d persists skipped, G had %d installs refused", nFFailed, nKSkipped, nGRefused)
 	}
 	r.State(states)
 }
